@@ -2,7 +2,7 @@
 from irbmc import core
 from irbmc.core import Harness
 from props.engine_family import FAM, DE
-from props import C05
+from props import C05, C06
 
 EQ_STUBS = [r'AST_Node_Impl<.*>::eval\(', DE + r'(new_function_call|pop_function_call|call_function)\(', r'chaiscript::Boxed_Number::do_oper', r'clone_if_necessary',
             r'chaiscript::Boxed_Value::(assign|type_match|reset_return_value)\(']
@@ -22,8 +22,32 @@ def data_harness():
     return Harness('D0.Data', C06.FAM, [rx], 'c07_data.c', shapes=[dict(DATA_CTOR=core.csym(C06.FAM, rx), _tag='all', _witness=('witness: constructed', 'witness: const type'))],
                    opts=['--unwind', '4'], timeout=120, mem_gb=4, inputs=['flags', 'is_ref', 'rv'], note='all Type_Info flag combinations, null or non-null object')
 
+def untyped_assign_harness():
+    import re
+    roots = [r'chaiscript::bootstrap::ptr_assign<', r'Bootstrap::unknown_assign\(']
+    stubs = [r'chaiscript::Boxed_Value::assign\(', r'chaiscript::Boxed_Value::Boxed_Value<', r'bad_boxed_cast::bad_boxed_cast', r'std::shared_ptr<.*>::~shared_ptr']
+    cuts = [r'Boxed_Value::~Boxed_Value']
+    g, info = core.translate(C06.FAM, roots, stubs, tag='N4_probe', cuts=cuts)
+    ext = [e.split('|')[0].strip() for e in info['ext']]
+    def one(pat):
+        m = [e for e in ext if re.search(pat, e)]
+        if len(m) != 1: raise core.BuildError('C07 N4: expected exactly one external matching %s, found %d' % (pat, len(m)))
+        return 'F_' + core.cname(m[0])
+    TIS = {'TI_FUNCTION_OBJ': '_ZTIN10chaiscript8dispatch19Proxy_Function_BaseE', 'TI_BAD_BOXED_CAST': '_ZTIN10chaiscript9exception14bad_boxed_castE'}
+    d = {'ASSIGN': one(r'^_ZN10chaiscript11Boxed_Value6assignERKS0_$'), 'BV_FROM_SP': one(r'^_ZN10chaiscript11Boxed_ValueC2IRKSt10shared_ptrINS_8dispatch19Proxy_Function_BaseEEvEEOT_b$'),
+         'BV_FROM_CSP': one(r'^_ZN10chaiscript11Boxed_ValueC2IRKSt10shared_ptrIKNS_8dispatch19Proxy_Function_BaseEEvEEOT_b$'), 'BBC_CTOR': one(r'bad_boxed_castC[12]ENS_7utility13Static_StringE$'),
+         'PTR_ASSIGN': core.csym(C06.FAM, r'ptr_assign<chaiscript::dispatch::Proxy_Function_Base>\('), 'PTR_ASSIGN_C': core.csym(C06.FAM, r'ptr_assign<chaiscript::dispatch::Proxy_Function_Base const>\('),
+         'UNKNOWN_ASSIGN': core.csym(C06.FAM, r'Bootstrap::unknown_assign\('), 'VERIF_STRCMP_BY_IDENTITY': 1}
+    for k, v in TIS.items(): d[k] = '((char*)&g_%s)' % v
+    N = {1: 'ptr_assign<Proxy_Function_Base>', 2: 'ptr_assign<const Proxy_Function_Base>', 3: 'unknown_assign'}
+    h = Harness('N4.untyped_assign', C06.FAM, roots, 'c07_untyped_assign.c', stubs=stubs, cuts=cuts,
+                shapes=[dict(d, ENTRY=e, _tag=N[e], _witness=('witness: refused', 'witness: assigned') + (('witness: const function object refused',) if e <= 2 else ())) for e in (1, 2, 3)],
+                opts=['--unwind', '4'], timeout=300, mem_gb=6, inputs=['t', 'fl'], note='target type from {function object, other, undefined}, flags const/reference/pointer symbolic; Boxed_Value::assign is a recorder')
+    h.need_globals = list(TIS.values())
+    return h
+
 def harnesses(tier):
-    hs = [equation_harness(), data_harness()]
+    hs = [equation_harness(), data_harness(), untyped_assign_harness()]
     oh = C05.oper_harness(tier); oh.name = 'N1.oper_const_lhs'      # the in-place pointer is null for const / return-value operands (assert tagged C07)
     hs.append(oh)
     for l in (C05.ALL_TYPES if tier != 'quick' else ['int32', 'uint8', 'int64', 'double']):
